@@ -272,8 +272,13 @@ func (e *Eval) binary(n *Node) Val {
 
 func (e *Eval) nilOf(o Val) Val {
 	if o.Typ == nil {
-		if o.Sort == "Int" {
+		switch o.Sort {
+		case "Int":
 			return Val{T: "0", Sort: "Int"}
+		case "Iface":
+			return Val{T: "(mk_iface 0 0)", Sort: "Iface"}
+		case "Slice":
+			return Val{T: "(mk_slice 0 0 0)", Sort: "Slice"}
 		}
 		e.fail("nil compared with a non-reference")
 	}
@@ -603,6 +608,19 @@ func (e *Eval) call(n *Node) Val {
 			}
 			x.declRaw("fun:pool_tag", "(declare-fun pool_tag (Int) Int)")
 			return Val{T: fmt.Sprintf("(= (pool_tag %s) %d)", v.T, x.tagOfName(args[1].Name)), Sort: "Bool"}
+		case "asiface":
+			// asiface(v): the interface value holding v (as MakeInterface builds it)
+			v := e.eval(args[0])
+			if v.Typ == nil {
+				e.fail("asiface of ghost value")
+			}
+			tag := x.tagOf(v.Typ)
+			payload := v.T
+			if s := x.sortOf(v.Typ); s != "Int" {
+				x.declBox(s)
+				payload = fmt.Sprintf("(box_%s %s)", mangle(s), v.T)
+			}
+			return Val{T: fmt.Sprintf("(mk_iface %d %s)", tag, payload), Typ: types.NewInterfaceType(nil, nil)}
 		case "cell":
 			// cell(p): the int64 cell at reference p (a location)
 			v := e.eval(args[0])
@@ -780,6 +798,15 @@ func (e *Eval) call(n *Node) Val {
 			for i, p := range sf.Params {
 				c.env[p] = e.eval(args[i])
 			}
+			// parameters shadow quantified variables of the caller with the same name
+			nb := map[string]Val{}
+			for k, v := range e.bound {
+				nb[k] = v
+			}
+			for _, p := range sf.Params {
+				delete(nb, p)
+			}
+			c.bound = nb
 			c.hash = e.hash
 			c.pkg = e.pkgOf(sf.Pkg)
 			return c.eval(sf.Body)
